@@ -9,6 +9,7 @@ import Props.C04_xmlattrs
 #print axioms SpyneModel.Props.C04hier.facts02_file
 #print axioms SpyneModel.Props.C04hier.hier_file_object_form_sound
 #print axioms SpyneModel.Props.C04hier.facts02_number_kinds
+#print axioms SpyneModel.Props.C04hier.facts02_int_from_float
 #print axioms SpyneModel.Props.C04hier.facts02_nofreq_kinds
 #print axioms SpyneModel.Props.C04hier.facts02_retag
 #print axioms SpyneModel.Props.C04hier.hier_wrapper_retag_rejected
@@ -20,3 +21,5 @@ import Props.C04_xmlattrs
 #print axioms SpyneModel.Props.C04xml.unknown_xsi_type_fault
 #print axioms SpyneModel.Props.C04xmlattrs.xml_decode_sound_attrs
 #print axioms SpyneModel.Props.C04xmlattrs.modifier_value_kind
+#print axioms SpyneModel.Props.C04xmlattrs.enum_text_must_be_a_member
+#print axioms SpyneModel.Props.C04xmlattrs.enum_member_is_read
